@@ -6,11 +6,13 @@ import os
 import numpy as np
 import pandas as pd
 
+from fractions import Fraction
+
 from common import coq_eval, frac, close, qlit, TOL_ARITH, TOL_FIT, COQ
 import datagen
 
 PROP_FILE = 'theories/Properties/C05.v'
-MODEL_FILES = ['theories/Spec/WeightSpec.v', 'theories/Model/Ipw.v']
+MODEL_FILES = ['theories/Spec/WeightSpec.v', 'theories/Model/Ipw.v', 'theories/Model/IpwRun.v']
 GEN_GROUPS = ['weights']
 RULE = ('IPTW: frames with continuous + categorical predictors (separated / near-separated draws rejected), EVERY '
         'stabilized x standardize x numerator-model x bound (none / symmetric float that bites / asymmetric pair that bites '
@@ -32,6 +34,10 @@ TRUSTED = ['oracle: statsmodels GLM(Binomial) returns the logistic MLE -- assume
 
 TARGETS = {'population': 'Population', 'exposed': 'Exposed', 'unexposed': 'Unexposed'}
 SEP_EPS = 1e-4
+IMPORTS = ['Zepid.Base.QSum', 'Zepid.Base.QUtil', 'Zepid.Model.Bounds', 'Zepid.Spec.WeightSpec', 'Zepid.Model.Ipw',
+           'Zepid.Model.IpwRun']
+TOLQ = '(1 # 1000000000)'       # TOL_ARITH as a Coq rational
+TOLFITQ = '(1 # 1000000)'       # TOL_FIT
 
 
 # ----------------------------------------------------------------------------------------------- helpers
@@ -108,6 +114,44 @@ def sidecar():
 
 def fl(x):
     return [float(v) for v in np.asarray(x, dtype=float).ravel()]
+
+
+def ql(x):
+    """exact Coq rational of a python number; floats (dyadic) as  dy m e = m / 2^e  (half the digits to parse)"""
+    fr = Fraction(x)
+    e = fr.denominator.bit_length() - 1
+    if fr.denominator == 1 << e and e <= 1100:
+        return 'dy (%d) %d' % (fr.numerator, e)
+    return qlit(fr)
+
+
+def qls(xs):
+    return '[' + '; '.join(ql(x) for x in xs) + ']'
+
+
+def oqls(xs):
+    """floats with NaN -> list (option Q)"""
+    return '[' + '; '.join('None' if x != x else 'Some (%s)' % ql(x) for x in xs) + ']'
+
+
+def bls(xs):
+    return '[' + '; '.join(b(x) for x in xs) + ']'
+
+
+def nls(xs):
+    return '[' + '; '.join('%d' % x for x in xs) + ']%nat'
+
+
+def finite(xs):
+    return all(x == x and abs(x) != float('inf') for x in xs)
+
+
+def diag_eval(ctx, expr):
+    """print the expected values of one row (only for the case that gets reported)"""
+    res, errs = coq_eval(ctx, 'c05diag', IMPORTS + ['ZepidGen.Gen_weights_Q'], [expr], shard=1)
+    if errs or res[0] is None:
+        return 'n/a'
+    return [('NaN' if v[1] == 0 else str(Fraction(v[0], v[1]))) if len(v) == 2 and v[1] >= 0 and not set(v) <= {0, 1} else v for v in res[0]]
 
 
 # =============================================================================================== IPTW
@@ -195,6 +239,7 @@ def iptw_part(ctx, fails, cases):
             continue
         raw_d = raw['1']['d']
         a = raw['1']['a']
+        n = len(a)
         fw = np.asarray(raw['1']['df'][cs['weights']], dtype=float) if cs['weights'] else None
         # oracle validation: score equations of every fit
         for numer in cs['numers']:
@@ -203,78 +248,95 @@ def iptw_part(ctx, fails, cases):
                 ctx.oracle_checks += 1
                 if res > 1e-6:
                     ctx.broken_ties.append('oracle: logistic score equations not solved for A ~ %s (residual %.3g)' % (rhs, res))
-        for bname, bound, lohi in bounds_for(raw_d, cs['seed_bounds']):
+        # one Coq case per frame: shared vectors are let-bound once, every combination is one entry of the result list
+        lets = ['let a := %s in' % bls(a), 'let rd := %s in' % qls(raw_d), 'let ones := repeat 1 %d in' % n]
+        for k, numer in enumerate(cs['numers']):
+            lets.append('let rn%d := %s in' % (k, qls(raw[numer]['n'])))
+        entries, combos = [], []
+        for bi, (bname, bound, lohi) in enumerate(bounds_for(raw_d, cs['seed_bounds'])):
+            bq = 'None' if lohi is None else 'Some (%s, %s)' % (ql(lohi[0]), ql(lohi[1]))
+            dname = None
             for stab in (True, False):
-                for numer in (cs['numers'] if stab else ['1']):
+                for k, numer in (list(enumerate(cs['numers'])) if stab else [(0, '1')]):
+                    nname = None
                     for std in ('population', 'exposed', 'unexposed'):
                         o = run_iptw(cs, stab, std, numer, bound, fails, size)
                         if o is None:
                             continue
-                        raw_n = raw[numer]['n'] if stab else [1.0] * len(a)
-                        used_n = o['n'] if stab else [1.0] * len(a)
+                        payload = dict(cs, combo=[stab, std, numer, repr(bound)])
+                        lab = 'IPTW(standardize=%r).treatment_model(stabilized=%r, model_numerator=%r, bound=%r)' % (std, stab, numer, bound)
+                        if o['a'] != a or len(o['d']) != n or len(o['w']) != n or not finite(o['w']) or not finite(o['d']):
+                            fails.append((size, 'IPTW.weight.shape', '%s: weights/probabilities are not n finite numbers in row order' % lab, payload))
+                            continue
                         if not stab and any(v != 1.0 for v in o['n']):
                             ctx.count('note:unstabilized+bound leaves __numer__ != 1 (weights do not read it)')
-                        bq = 'None' if lohi is None else 'Some (%s, %s)' % (qlit(lohi[0]), qlit(lohi[1]))
-                        rows = '[' + '; '.join('(%s, %s, %s)' % (b(x), qlit(d), qlit(n)) for x, d, n in zip(a, raw_d, raw_n)) + ']'
-                        used = '[' + '; '.join('(%s, %s, %s)' % (b(x), qlit(d), qlit(n)) for x, d, n in zip(a, o['d'], used_n)) + ']'
+                        # the vectors of probabilities used depend on (bound) resp. (bound, numerator) only: bind once, check equality
+                        if dname is None:
+                            dname = 'd%d' % bi
+                            lets.append('let %s := %s in' % (dname, qls(o['d'])))
+                            dvals = o['d']
+                        elif o['d'] != dvals:
+                            fails.append((size, 'IPTW.probabilities.unstable', '%s: __denom__ differs from the run with another standardize' % lab, payload))
+                            continue
+                        if stab:
+                            if nname is None:
+                                nname = 'n%d_%d' % (bi, k)
+                                lets.append('let %s := %s in' % (nname, qls(o['n'])))
+                                nvals = o['n']
+                            elif o['n'] != nvals:
+                                fails.append((size, 'IPTW.probabilities.unstable', '%s: __numer__ differs from the run with another standardize' % lab, payload))
+                                continue
                         name = 'iptw_%s_%s' % ('stab' if stab else 'unstab', std)
-                        twin = '(@nil (list (list Z)))'
+                        tw = 'None'
                         if name in side and set(side[name]['inputs']) <= {'d', 'n'}:
-                            args = ' '.join({'d': 'd', 'n': 'n'}[i] for i in side[name]['inputs'])
-                            twin = 'map (fun x => match x with (a, d, n) => Qoflat (%s_Q a %s) end) used' % (name, args)
+                            tw = 'Some (fun a d n => %s_Q a %s)' % (name, ' '.join(side[name]['inputs']))
                         elif side:
                             ctx.broken_ties.append('correspondence: translated %s has inputs the harness cannot supply' % name)
-                        exprs.append('let rows := %s in let used := %s in '
-                                     '(map (fun x => match x with (d, n, w) => (Qpair d, Qpair n, Qopair w) end) (iptw_rows %s %s (%s) rows), '
-                                     'map (fun x => match x with (a, d, n) => Qpair (spec_iptw %s %s a d n) end) used, %s)'
-                                     % (rows, used, b(stab), TARGETS[std], bq, b(stab), TARGETS[std], twin))
+                        entries.append('iptw_chk %s %s %s (%s) (%s) 0 a rd %s %s %s %s'
+                                       % (TOLQ, b(stab), TARGETS[std], bq, tw, 'rn%d' % k if stab else 'ones', dname,
+                                          nname if stab else 'ones', qls(o['w'])))
                         nclip = sum(1 for x, y in zip(raw_d, o['d']) if x != y)
-                        work.append((cs, stab, std, numer, bname, bound, o, nclip, size))
-    imports = ['Zepid.Base.QUtil', 'Zepid.Model.Bounds', 'Zepid.Spec.WeightSpec', 'Zepid.Model.Ipw', 'ZepidGen.Gen_weights_Q']
-    res, errs = coq_eval(ctx, 'c05a', imports, exprs, shard=8)
+                        combos.append((stab, std, numer, bname, bound, lohi, o, nclip, lab, payload, tw != 'None', k))
+        exprs.append('\n'.join(lets) + '\n[' + ';\n '.join(entries) + ']')
+        work.append((cs, a, raw, raw_d, combos, size))
+    res, errs = coq_eval(ctx, 'c05a', IMPORTS + ['ZepidGen.Gen_weights_Q'], exprs, shard=1)
     if errs:
         ctx.broken_ties.append('coq evaluation failed (iptw): ' + errs[0][1][-300:])
-    for (cs, stab, std, numer, bname, bound, o, nclip, size), r in zip(work, res):
-        if r is None:
+    what = {0: 'vector lengths differ', 1: 'probabilities', 2: 'model', 3: 'spec', 4: 'twin'}
+    for (cs, a, raw, raw_d, combos, size), r in zip(work, res):
+        if r is None or len(r) != len(combos):
             continue
-        ctx.programs += 1
-        combo = 'stab=%s,std=%s,numer=%s,bound=%s' % (stab, std, 'const' if numer == '1' else 'cov', bname)
-        ctx.count('iptw:' + combo)
-        if bname in ('sym', 'pair'):
-            ctx.count('iptw-bound-bites' if nclip else 'iptw-bound-idle')
-        ctx.nontriv(['iptw', combo, o['d'][:4], o['a'][:8]])
-        ctx.sample({'class': 'IPTW', 'combo': combo, 'n': size, 'w[:3]': o['w'][:3]}, cap=2)
-        payload = dict(cs, combo=[stab, std, numer, repr(bound)])
-        model, spec, twin = r
-        lab = 'IPTW(standardize=%r).treatment_model(stabilized=%r, model_numerator=%r, bound=%r)' % (std, stab, numer, bound)
-        for i, (m, sp) in enumerate(zip(model, spec)):
-            md, mn, mw = frac(m[0]), frac(m[1]), frac(m[2])
-            ctx.disagreements_checked += 3
-            if not close(o['d'][i], md, TOL_ARITH) or (stab and not close(o['n'][i], mn, TOL_ARITH)):
-                fails.append((size, 'IPTW.probabilities.%s' % ('bound' if bname != 'none' else 'values'),
-                              '%s: row %d uses d=%r n=%r, model (clip of the fitted values) gives %s, %s' % (lab, i, o['d'][i], o['n'][i], md, mn), payload))
-                break
-            if not close(o['w'][i], mw, TOL_ARITH):
-                fails.append((size, 'IPTW.weight.model.%s.%s' % ('stab' if stab else 'unstab', std),
-                              '%s: row %d (A=%d) weight %r, model %s' % (lab, i, o['a'][i], o['w'][i], mw), payload))
-                break
-            if not close(o['w'][i], frac(sp), TOL_ARITH):
-                fails.append((size, 'IPTW.weight.spec.%s.%s' % ('stab' if stab else 'unstab', std),
-                              '%s: row %d (A=%d, d=%r, n=%r) weight %r, documented weight %s'
-                              % (lab, i, o['a'][i], o['d'][i], o['n'][i], o['w'][i], frac(sp)), payload))
-                break
-        if twin:
-            for i, t in enumerate(twin):
-                ctx.disagreements_checked += 1
-                if not close(o['w'][i], frac(t[0]), TOL_ARITH):
-                    ctx.broken_ties.append('correspondence: translated iptw_%s_%s evaluates to %s on row %d, implementation returned %r'
-                                           % ('stab' if stab else 'unstab', std, frac(t[0]), i, o['w'][i]))
-                    break
+        for (stab, std, numer, bname, bound, lohi, o, nclip, lab, payload, has_tw, k), bad in zip(combos, r):
+            ctx.programs += 1
+            combo = 'stab=%s,std=%s,numer=%s,bound=%s' % (stab, std, 'const' if numer == '1' else 'cov', bname)
+            ctx.count('iptw:' + combo)
+            if bname in ('sym', 'pair'):
+                ctx.count('iptw-bound-bites' if nclip else 'iptw-bound-idle')
+            ctx.nontriv(['iptw', combo, o['d'][:4], o['a'][:8]])
+            ctx.sample({'class': 'IPTW', 'combo': combo, 'n': size, 'w[:3]': o['w'][:3]}, cap=2)
+            ctx.disagreements_checked += len(a) * (3 + (1 if has_tw else 0))
+            if not bad:
+                continue
+            i, code = bad[0]
+            rn = raw[numer]['n'][i] if stab else 1.0
+            un = o['n'][i] if stab else 1.0
+            bq = 'None' if lohi is None else 'Some (%s, %s)' % (ql(lohi[0]), ql(lohi[1]))
+            dexpr = 'iptw_val %s %s (%s) %s (%s) (%s) (%s) (%s)' % (b(stab), TARGETS[std], bq, b(a[i]), ql(raw_d[i]), ql(rn), ql(o['d'][i]), ql(un))
+            sv = '%s.%s' % ('stab' if stab else 'unstab', std)
+            msg = '%s: row %d (A=%d, fitted d=%r n=%r): uses d=%r n=%r, weight %r' % (lab, i, a[i], raw_d[i], rn, o['d'][i], o['n'][i], o['w'][i])
+            if code == 4:
+                ctx.broken_ties.append('correspondence: translated iptw_%s_%s disagrees with the implementation (%s)' % ('stab' if stab else 'unstab', std, msg))
+                continue
+            key = {0: 'IPTW.weight.shape', 1: 'IPTW.probabilities.%s' % ('bound' if bname != 'none' else 'values'),
+                   2: 'IPTW.weight.model.' + sv, 3: 'IPTW.weight.spec.' + sv}[code]
+            fails.append((size, key, msg + ' -- disagrees with the %s' % what[code], payload,
+                          lambda e=dexpr: ' [expected clip d, clip n, model weight, documented weight = %s]' % diag_eval(ctx, e)))
 
 
 # --------------------------------------------------------------------------------- IPTW.missing_model
 def missing_part(ctx, fails, cases):
-    import zepid.causal.ipw.IPTW as mod
+    import importlib
+    mod = importlib.import_module('zepid.causal.ipw.IPTW')
     from zepid.causal.ipw import IPTW
     exprs, work = [], []
     for cs in cases:
@@ -304,28 +366,26 @@ def missing_part(ctx, fails, cases):
                     res = score_residual(rhs, rec['train'], rec['train']['__missing_indicator__'], rec['fm'].predict(rec['train']))
                     if res > 1e-6:
                         ctx.broken_ties.append('oracle: score equations not solved for %s (residual %.3g)' % (rec['formula'], res))
-                bq = 'None' if lohi is None else 'Some (%s, %s)' % (qlit(lohi[0]), qlit(lohi[1]))
-                rows = '[' + '; '.join('(%s, %s, %s)' % (b(o), qlit(x), qlit(y)) for o, x, y in zip(obs, d, n)) + ']'
-                clip = '(fun v => v)' if lohi is None else '(clip1 %s %s)' % (qlit(lohi[0]), qlit(lohi[1]))
-                exprs.append('let rows := %s in (map (fun r => Qopair (iptw_missing_row %s (%s) r)) rows, '
-                             'map (fun x => match x with (o, d, n) => Qopair (spec_ipmw %s o [n] [%s d]) end) rows)'
-                             % (rows, b(stab), bq, b(stab), clip))
-                work.append((payload, stab, bname, bound, fl(ip.ipmw), obs, size))
-    res, errs = coq_eval(ctx, 'c05m', ['Zepid.Base.QUtil', 'Zepid.Model.Bounds', 'Zepid.Spec.WeightSpec', 'Zepid.Model.Ipw'], exprs, shard=8)
+                bq = 'None' if lohi is None else 'Some (%s, %s)' % (ql(lohi[0]), ql(lohi[1]))
+                clip = '(fun v => v)' if lohi is None else '(clip1 (%s) (%s))' % (ql(lohi[0]), ql(lohi[1]))
+                w = fl(ip.ipmw)
+                exprs.append('miss_chk %s %s (%s) %s 0 %s %s %s %s' % (TOLQ, b(stab), bq, clip, bls(obs), qls(d), qls(n), oqls(w)))
+                work.append((payload, stab, bname, bound, w, obs, d, n, size))
+    res, errs = coq_eval(ctx, 'c05m', IMPORTS, exprs, shard=3)
     if errs:
         ctx.broken_ties.append('coq evaluation failed (missing_model): ' + errs[0][1][-300:])
-    for (payload, stab, bname, bound, w, obs, size), r in zip(work, res):
+    for (payload, stab, bname, bound, w, obs, d, n, size), r in zip(work, res):
         if r is None:
             continue
         ctx.programs += 1
         ctx.count('iptw-missing:stab=%s,bound=%s' % (stab, bname))
         ctx.nontriv(['iptw-missing', stab, bname, w[:5]])
-        for i, (m, sp) in enumerate(zip(r[0], r[1])):
-            ctx.disagreements_checked += 2
-            if not close(w[i], frac(m), TOL_ARITH) or not close(w[i], frac(sp), TOL_ARITH):
-                fails.append((size, 'IPTW.missing_model.weight', 'IPTW.missing_model(stabilized=%r, bound=%r): row %d (observed=%d) ipmw %r, '
-                              'model %s, documented %s' % (stab, bound, i, obs[i], w[i], frac(m), frac(sp)), payload))
-                break
+        ctx.disagreements_checked += 2 * len(w)
+        if r:
+            i, code = r[0]
+            fails.append((size, 'IPTW.missing_model.weight', 'IPTW.missing_model(stabilized=%r, bound=%r): row %d (outcome observed=%d, fitted '
+                          'P(observed)=%r, numerator %r) has ipmw %r; disagrees with the %s'
+                          % (stab, bound, i, obs[i], d[i], n[i], w[i], {0: 'vector lengths', 2: 'model', 3: 'documented n/d'}[code]), payload))
 
 
 # =============================================================================================== StochasticIPTW
@@ -376,6 +436,8 @@ def stoch_part(ctx, fails, cases):
         res = score_residual(cs['rhs'], sp.df, a, pd_, w if cs['weights'] else None)
         if res > 1e-6:
             ctx.broken_ties.append('oracle: score equations not solved for A ~ %s (residual %.3g)' % (cs['rhs'], res))
+        lets = ['let a := %s in let y := %s in let pd := %s in let w := %s in' % (bls(a), qls(y), qls(pd_), qls(w))]
+        entries, plans = [], []
         for plan in cs['plans']:
             payload = dict(cs, plans=[plan])
             rec = []
@@ -399,52 +461,48 @@ def stoch_part(ctx, fails, cases):
                 continue
             # truth value of every condition on every row, evaluated by the harness on the class's own frame
             if plan['cond'] is None:
-                truth = None
-                plans = ['Marginal %s' % qlit(plan['p'])] * len(a)
-                pbar = [plan['p']] * len(a)
+                pl = '(fun _ => Marginal (%s))' % ql(plan['p'])
+                pbs = ['Some (Some (%s))' % ql(plan['p'])] * len(a)
             else:
                 truth = [np.asarray(eval(c, {'df': sp.df, 'np': np}), dtype=bool) for c in plan['cond']]
-                plans, pbar = [], []
+                pl = '(cond_plan [%s] %s)' % ('; '.join(bls(t) for t in truth), qls(plan['p']))
+                pbs = []
                 for i in range(len(a)):
-                    plans.append('Conditional [' + '; '.join('(%s, %s)' % (b(t[i]), qlit(p)) for t, p in zip(truth, plan['p'])) + ']')
                     hits = [p for t, p in zip(truth, plan['p']) if t[i]]
-                    pbar.append(hits[0] if len(hits) == 1 else None)     # documented only for exclusive conditions
-            rows = '[' + '; '.join('{| s_a := %s; s_y := %s; s_pd := %s; s_w := %s; s_plan := %s |}'
-                                   % (b(a[i]), qlit(y[i]), qlit(pd_[i]), qlit(w[i]), plans[i]) for i in range(len(a))) + ']'
-            spec = '[' + '; '.join('None' if pb is None else 'Some (spec_stochastic %s %s %s * %s)' % (b(a[i]), qlit(pb), qlit(pd_[i]), qlit(w[i]))
-                                   for i, pb in enumerate(pbar)) + ']'
-            exprs.append('let rows := %s in (map (fun r => Qopair (stoch_weight r)) rows, Qopair (stoch_marginal rows), Qoflat %s)' % (rows, spec))
-            nhits = None if truth is None else [int(sum(t[i] for t in truth)) for i in range(len(a))]
-            work.append((payload, plan, fl(rec[0]), mo, pbar, nhits, size))
-    res, errs = coq_eval(ctx, 'c05s', ['Zepid.Base.QSum', 'Zepid.Base.QUtil', 'Zepid.Spec.WeightSpec', 'Zepid.Model.Ipw'], exprs, shard=6)
+                    pbs.append('Some None' if not hits else ('Some (Some (%s))' % ql(hits[0]) if len(hits) == 1 else 'None'))
+            iw = fl(rec[0])
+            rows = '(mk_srows %s 0 a y pd w)' % pl
+            entries.append('stoch_chk %s %s %s [%s] (%s)' % (TOLQ, rows, oqls(iw), '; '.join(pbs), 'None' if mo != mo else 'Some (%s)' % ql(mo)))
+            plans.append((payload, plan, iw, mo, rows))
+        exprs.append('\n'.join(lets) + '\n[' + ';\n '.join(entries) + ']')
+        work.append((plans, '\n'.join(lets), a, pd_, size))
+    res, errs = coq_eval(ctx, 'c05s', IMPORTS, exprs, shard=1)
     if errs:
         ctx.broken_ties.append('coq evaluation failed (stochastic): ' + errs[0][1][-300:])
-    for (payload, plan, w, mo, pbar, nhits, size), r in zip(work, res):
-        if r is None:
+    for (plans, lets, a, pd_, size), r in zip(work, res):
+        if r is None or len(r) != len(plans):
             continue
-        ctx.programs += 1
-        ctx.count('stochastic:' + plan['kind'] + (',weights' if payload['weights'] else ''))
-        ctx.nontriv(['stochastic', plan['kind'], repr(plan['p']), w[:4]])
-        ctx.sample({'class': 'StochasticIPTW', 'plan': plan, 'marginal_outcome': mo}, cap=3)
-        lab = 'StochasticIPTW.fit(p=%r, conditional=%r)' % (plan['p'], plan['cond'])
-        bad = False
-        for i, (m, sp_) in enumerate(zip(r[0], r[2])):
-            ctx.disagreements_checked += 1
-            if not close(w[i], frac(m), TOL_ARITH):
-                fails.append((size, 'StochasticIPTW.weight.model.' + plan['kind'], '%s: row %d weight %r, overwrite-loop model %s'
-                              % (lab, i, w[i], frac(m)), payload))
-                bad = True
-                break
-            if pbar[i] is not None or (nhits is not None and nhits[i] == 0):
-                ctx.disagreements_checked += 1
-                if not close(w[i], frac(sp_), TOL_ARITH):
-                    fails.append((size, 'StochasticIPTW.weight.spec.' + plan['kind'], '%s: row %d weight %r, plan/observed probability %s'
-                                  % (lab, i, w[i], frac(sp_)), payload))
-                    bad = True
+        for (payload, plan, iw, mo, rows), (nrows, bad_m, bad_s, mo_ok) in zip(plans, r):
+            ctx.programs += 1
+            ctx.count('stochastic:' + plan['kind'] + (',weights' if payload['weights'] else ''))
+            ctx.nontriv(['stochastic', plan['kind'], repr(plan['p']), iw[:4]])
+            ctx.sample({'class': 'StochasticIPTW', 'plan': plan, 'marginal_outcome': mo}, cap=3)
+            ctx.disagreements_checked += 2 * len(a) + 1
+            lab = 'StochasticIPTW.fit(p=%r, conditional=%r)' % (plan['p'], plan['cond'])
+            if nrows != len(a):
+                ctx.broken_ties.append('correspondence: stochastic case built %d rows for %d' % (nrows, len(a)))
+                continue
+            for bad, kind, txt in ((bad_m, 'model', 'first-to-last overwrite model'), (bad_s, 'spec', 'plan probability / fitted probability of the treatment received')):
+                if bad:
+                    i = bad[0]
+                    fails.append((size, 'StochasticIPTW.weight.%s.%s' % (kind, plan['kind']), '%s: row %d (A=%d, fitted P(A=1)=%r) has weight %r; disagrees with the %s'
+                                  % (lab, i, a[i], pd_[i], iw[i], txt), payload,
+                                  lambda e='%s\nstoch_val %s %d' % (lets, rows, i): ' [expected weight, marginal outcome = %s]' % diag_eval(ctx, e)))
                     break
-        if not bad and not close(mo, frac(r[1]), TOL_ARITH):
-            fails.append((size, 'StochasticIPTW.marginal_outcome.' + plan['kind'], '%s: marginal_outcome %r, weighted mean of the model %s'
-                          % (lab, mo, frac(r[1])), payload))
+            else:
+                if not mo_ok:
+                    fails.append((size, 'StochasticIPTW.marginal_outcome.' + plan['kind'], '%s: marginal_outcome %r is not the weighted mean of the outcome under the modelled weights'
+                                  % (lab, mo), payload, lambda e='%s\nstoch_val %s 0' % (lets, rows): ' [expected weight of row 0, marginal outcome = %s]' % diag_eval(ctx, e)))
 
 
 # =============================================================================================== IPMW
@@ -536,8 +594,10 @@ def ipmw_key(cs, kind):
     return 'IPMW.%s.%s.%s' % (site, idx, kind)
 
 
+
 def ipmw_part(ctx, fails, cases):
-    import zepid.causal.ipw.IPMW as mod
+    import importlib
+    mod = importlib.import_module('zepid.causal.ipw.IPMW')
     from zepid.causal.ipw import IPMW
     exprs, work = [], []
     for cs in cases:
@@ -585,7 +645,7 @@ def ipmw_part(ctx, fails, cases):
             k = cand[0]
             fitted_vars.append(k)
             train_ids[k] = ids
-            if not rec['preds'] or len(rec['preds'][-1]) != n:
+            if not rec['preds'] or len(rec['preds'][-1]) != n or (per == 2 and (not recs[j + 1]['preds'] or len(recs[j + 1]['preds'][-1]) != n)):
                 ok = False
                 fails.append((n, ipmw_key(cs, 'schedule'), '%s: model of variable %d was not used to predict the full data' % (lab, k), cs))
                 break
@@ -600,41 +660,30 @@ def ipmw_part(ctx, fails, cases):
         if not ok:
             continue
         strat = [int(v) for v in df['L']]
-
-        def rowlist(fill):
-            out = []
-            for i in range(n):
-                d = [qlit(den[k][i]) if k in den else fill for k in range(K)]
-                nu = [qlit(num[k][i]) if k in num else fill for k in range(K)]
-                out.append('(%d%%nat, %d%%nat, [%s], [%s], [%s])' % (i, strat[i], '; '.join(b(x) for x in obs[i]), '; '.join(d), '; '.join(nu)))
-            return '[' + '; '.join(out) + ']'
-        tele = 'map (fun r => Qpair (cnt_all rows (m_s r) / cnt_obs rows (m_s r) (%d - 1))) rows' % K if cs['saturated'] else '(@nil (list Z))'
-        exprs.append(
-            'let mk := fun (byid : bool) (x : nat * nat * list bool * list Q * list Q) => match x with (i, s, o, d, nu) => '
-            'Build_mrow (if byid then i else s) o d nu end in '
-            'let rows := map (mk false) %s in let rid := map (mk true) %s in let srows := map (mk false) %s in '
-            '(ipmw_fits rows %d, map (fun k => map m_s (train rid k)) (seq 0 %d), monotone_ok rows %d, '
-            'map (fun r => Qopair (ipmw_code %s rows %d r)) rows, '
-            'map (fun r => Qopair (spec_ipmw %s (forallb (fun k => obs k r) (seq 0 %d)) (map (fun k => num_at k r) (seq 0 %d)) '
-            '(map (fun k => den_at k r) (seq 0 %d)))) srows, %s)'
-            % (rowlist('0'), rowlist('0'), rowlist('1'), K, K, K, b(cs['stabilized']), K, b(cs['stabilized']), K, K, K, tele))
-        work.append((cs, lab, wt, fitted_vars, train_ids, obs, n))
-    res, errs = coq_eval(ctx, 'c05p', ['Zepid.Base.QSum', 'Zepid.Base.QUtil', 'Zepid.Spec.WeightSpec', 'Zepid.Model.Ipw'], exprs, shard=6)
+        raws = []
+        for i in range(n):
+            d = ['Some (%s)' % ql(den[k][i]) if k in den else 'None' for k in range(K)]
+            nu = ['Some (%s)' % ql(num[k][i]) if k in num else 'None' for k in range(K)]
+            raws.append('Build_rawm %d %s [%s] [%s]' % (strat[i], bls(obs[i]), '; '.join(d), '; '.join(nu)))
+        raws = '[' + ';\n '.join(raws) + ']'
+        exprs.append('ipmw_chk %s %s %s %d %s %s %s' % (TOLQ, TOLFITQ, b(cs['stabilized']), K, raws, oqls(wt), b(cs['saturated'])))
+        work.append((cs, lab, wt, fitted_vars, train_ids, obs, n, raws))
+    res, errs = coq_eval(ctx, 'c05p', IMPORTS, exprs, shard=3)
     if errs:
         ctx.broken_ties.append('coq evaluation failed (ipmw): ' + errs[0][1][-300:])
-    for (cs, lab, wt, fitted_vars, train_ids, obs, n), r in zip(work, res):
+    for (cs, lab, wt, fitted_vars, train_ids, obs, n, raws), r in zip(work, res):
         if r is None:
             continue
         ctx.programs += 1
         ctx.nontriv(['ipmw', cs['K'], cs['pattern'], cs['stabilized'], cs['dens'], cs['index_kind'], wt[:6]])
         ctx.sample({'class': 'IPMW', 'K': cs['K'], 'pattern': cs['pattern'], 'index': cs['index_kind'], 'n': n, 'Weight[:3]': wt[:3]}, cap=4)
-        fits, trains, mono, model, spec, tele = r
+        fits, trains, mono, bad_m, bad_s, bad_t = r
         if not mono:
             ctx.broken_ties.append('generator produced a non-monotone pattern')
             continue
         exp_vars = [k for k, f in enumerate(fits) if f]
         ctx.disagreements_checked += 1
-        if sorted(fitted_vars) != exp_vars or fitted_vars != sorted(fitted_vars):
+        if fitted_vars != exp_vars:
             fails.append((n, ipmw_key(cs, 'schedule'), '%s: models were fitted for variables %r, the documented procedure fits %r '
                           '(a variable uniform with its predecessor is skipped)' % (lab, fitted_vars, exp_vars), cs))
             continue
@@ -645,22 +694,16 @@ def ipmw_part(ctx, fails, cases):
             fails.append((n, ipmw_key(cs, 'training-rows'), '%s: the model of variable %d was fitted on %d rows, the rows observed on the previous '
                           'variable are %d' % (lab, k, len(train_ids[k]), len(trains[k])), cs))
             continue
-        if len(wt) != n:
-            fails.append((n, ipmw_key(cs, 'weights'), '%s: Weight has %d entries for %d rows' % (lab, len(wt), n), cs))
-            continue
-        for i in range(n):
-            ctx.disagreements_checked += 2
-            m, sp = frac(model[i]), frac(spec[i])
-            if not close(wt[i], m, TOL_ARITH) or not close(wt[i], sp, TOL_ARITH):
-                fails.append((n, ipmw_key(cs, 'weights'), '%s: row %d (observed %r) has Weight %r; numer/prod of the fitted observation '
-                              'probabilities of that row is %s (model) / %s (documented)' % (lab, i, obs[i], wt[i], m, sp), cs))
+        ctx.disagreements_checked += (3 if cs['saturated'] else 2) * n
+        for bad, kind, txt in ((bad_m, 'weights', 'model'), (bad_s, 'weights', 'documented numerator / product of conditional observation probabilities'),
+                               (bad_t, 'telescoping', 'n_s / #{fully observed in s} (saturated models)')):
+            if bad:
+                i = bad[0]
+                fails.append((n, ipmw_key(cs, kind), '%s: row %d (observed %r) has Weight %r; disagrees with the %s'
+                              % (lab, i, obs[i] if i < n else None, wt[i] if i < len(wt) else None, txt), cs,
+                              lambda e='ipmw_val %s %d %s %d' % (b(cs['stabilized']), cs['K'], raws, i):
+                              ' [expected model, documented, n_s/#full = %s]' % diag_eval(ctx, e)))
                 break
-            if tele:
-                ctx.disagreements_checked += 1
-                if all(obs[i]) and not close(wt[i], frac(tele[i]), TOL_FIT):
-                    fails.append((n, ipmw_key(cs, 'telescoping'), '%s: saturated models, row %d Weight %r but n_s / #fully observed in s = %s'
-                                  % (lab, i, wt[i], frac(tele[i])), cs))
-                    break
 
 
 # =============================================================================================== IPCW
@@ -752,6 +795,7 @@ def run_ipcw(df, cs):
             'index_same': bool(ipc.Weight.index.equals(out.index)), 'df': out}
 
 
+
 def ipcw_part(ctx, fails, cases):
     exprs, work = [], []
     for cs in cases:
@@ -783,6 +827,9 @@ def ipcw_part(ctx, fails, cases):
             res = score_residual(rhs, o['df'], o['u'], p)
             if res > 1e-6:
                 ctx.broken_ties.append('oracle: score equations not solved for __uncensored__ ~ %s (residual %.3g)' % (rhs, res))
+        if not o['index_same'] or len(o['w']) != n or not finite(o['w']) or not finite(o['cnum']) or not finite(o['cden']):
+            fails.append((n, 'IPCW.Weight.shape', '%s: Weight is not n finite numbers aligned with IPCW.df' % lab, cs))
+            continue
         # the same rows in another order must get the same weights (implementation-level sort invariance)
         perm = np.random.RandomState(cs['perm_seed']).permutation(n)
         try:
@@ -791,87 +838,78 @@ def ipcw_part(ctx, fails, cases):
             if strict:
                 ctx.disagreements_checked += n
                 worst = max(abs(w2[q] - w) / max(1.0, abs(w)) for q, w in zip(o['rid'], o['w']))
-                if worst > TOL_FIT:
+                if not worst <= TOL_FIT:
                     fails.append((n, 'IPCW.sort-invariance', '%s: permuting the input rows changes a weight by %.3g (relative)' % (lab, worst), cs))
         except Exception as e:   # noqa
             fails.append((n, 'IPCW.raises', '%s (permuted rows) raised %s: %s' % (lab, type(e).__name__, str(e)[:100]), cs))
-        pr = {q: (nu, de) for q, nu, de in zip(o['rid'], o['num'], o['den'])}
-
-        def crow(i, t, d, nu, de):
-            return '{| c_id := (%d)%%Z; c_time := %s; c_event := %s; c_num := %s; c_den := %s |}' % (i, qlit(t), b(d), qlit(nu), qlit(de))
-        srt = '[' + '; '.join(crow(i, t, d, nu, de) for i, t, d, nu, de in zip(o['id'], o['t'], o['d'], o['num'], o['den'])) + ']'
-        inp_rows = '[' + '; '.join(crow(int(i), float(t), int(d), pr[int(q)][0], pr[int(q)][1])
-                                   for q, i, t, d in zip(df['rid'], df['id'], df['t'], df['d'])) + ']'
-        exprs.append('let s := %s in let input := %s in '
-                     '(sorted_bool s, uncensored_code (max_time input) s, Qflat (cumprod_by_id c_num [] s), Qflat (cumprod_by_id c_den [] s), '
-                     'Qflat (ipcw_weights s), map (cspec_uncensored input) input, map (fun r => Qpair (cspec_weight input r)) input)' % (srt, inp_rows))
-        work.append((cs, lab, o, [int(q) for q in df['rid']], strict, n))
-    res, errs = coq_eval(ctx, 'c05c', ['Zepid.Base.QSum', 'Zepid.Base.QUtil', 'Zepid.Spec.WeightSpec', 'Zepid.Model.Ipw'], exprs, shard=4)
+        s = '[' + ';\n '.join('Build_crow (%d) (%s) %s (%s) (%s)' % (i, ql(t), b(d), ql(nu), ql(de))
+                              for i, t, d, nu, de in zip(o['id'], o['t'], o['d'], o['num'], o['den'])) + ']'
+        pos = {q: j for j, q in enumerate(o['rid'])}
+        pm = nls([pos[int(q)] for q in df['rid']])
+        exprs.append('ipcw_chk %s %s %s %s %s %s %s' % (TOLQ, s, pm, bls(o['u']), qls(o['cnum']), qls(o['cden']), qls(o['w'])))
+        work.append((cs, lab, o, strict, n, s, pm))
+    res, errs = coq_eval(ctx, 'c05c', IMPORTS, exprs, shard=2)
     if errs:
         ctx.broken_ties.append('coq evaluation failed (ipcw): ' + errs[0][1][-300:])
-    for (cs, lab, o, in_rid, strict, n), r in zip(work, res):
+    for (cs, lab, o, strict, n, s, pm), r in zip(work, res):
         if r is None:
             continue
         ctx.programs += 1
         ctx.nontriv(['ipcw', cs['variant'], cs['order'], cs['den'], cs['num'], o['w'][:6]])
         ctx.sample({'class': 'IPCW', 'rows': n, 'variant': cs['variant'], 'order': cs['order'], 'index': cs['index_kind'], 'Weight[:3]': o['w'][:3]}, cap=4)
-        sorted_ok, unc, cnum, cden, wts, spec_u, spec_w = r
-        if not sorted_ok:
+        sorted_ok, nin, bad_u, bad_cn, bad_cd, bad_w, bad_su, bad_sw = r
+        if not sorted_ok or nin != n:
             ctx.broken_ties.append('oracle: Model.Ipw.sorted_bool rejects the frame sort_values returned')
             continue
-        if not o['index_same'] or len(o['w']) != n:
-            fails.append((n, 'IPCW.Weight.index', '%s: Weight is not aligned with IPCW.df' % lab, cs))
-            continue
-        ctx.disagreements_checked += 4 * n
-        bad = [j for j in range(n) if bool(o['u'][j]) != unc[j]]
-        if bad:
-            j = bad[0]
-            fails.append((n, 'IPCW.uncensored.model', '%s: sorted row %d (id=%d, t=%r, event=%d) has __uncensored__=%d, model %s'
-                          % (lab, j, o['id'][j], o['t'][j], o['d'][j], o['u'][j], unc[j]), cs))
-            continue
-        bad = [j for j in range(n) if not close(o['cnum'][j], frac(cnum[j]), TOL_ARITH) or not close(o['cden'][j], frac(cden[j]), TOL_ARITH)
-               or not close(o['w'][j], frac(wts[j]), TOL_ARITH)]
-        if bad:
-            j = bad[0]
-            fails.append((n, 'IPCW.cumprod.model', '%s: sorted row %d (id=%d, t=%r): __cnumer__/__cdenom__/Weight = %r/%r/%r, running products %s/%s/%s'
-                          % (lab, j, o['id'][j], o['t'][j], o['cnum'][j], o['cden'][j], o['w'][j], frac(cnum[j]), frac(cden[j]), frac(wts[j])), cs))
-            continue
+        ctx.disagreements_checked += 4 * n + (2 * n if strict else 0)
+        checks = [(bad_u, 'IPCW.uncensored.model', '__uncensored__ disagrees with the shift(-1) model'),
+                  (bad_cn or bad_cd or bad_w, 'IPCW.cumprod.model', '__cnumer__/__cdenom__/Weight disagree with the per-id running products')]
         if strict:      # the order-free documented definitions are unambiguous only without duplicated (id, time)
-            pos = {q: j for j, q in enumerate(in_rid)}
-            ctx.disagreements_checked += 2 * n
-            for j, q in enumerate(o['rid']):
-                if bool(o['u'][j]) != spec_u[pos[q]]:
-                    fails.append((n, 'IPCW.uncensored.spec', '%s: row id=%d t=%r event=%d has __uncensored__=%d; documented indicator '
-                                  '(0 exactly on a subject\'s last row without event and not at the maximum time) is %s'
-                                  % (lab, o['id'][j], o['t'][j], o['d'][j], o['u'][j], spec_u[pos[q]]), cs))
-                    break
-                if not close(o['w'][j], frac(spec_w[pos[q]]), TOL_ARITH):
-                    fails.append((n, 'IPCW.weight.spec', '%s: row id=%d t=%r Weight %r; product over the subject\'s rows up to t of num/den = %s'
-                                  % (lab, o['id'][j], o['t'][j], o['w'][j], frac(spec_w[pos[q]])), cs))
-                    break
+            checks += [(bad_su, 'IPCW.uncensored.spec', '__uncensored__ is not the documented indicator (0 exactly on a subject\'s last row without '
+                        'event and not at the maximum time)'),
+                       (bad_sw, 'IPCW.weight.spec', 'Weight is not the product over the subject\'s rows up to t of numerator/denominator probability')]
+        for bad, key, txt in checks:
+            if bad:
+                j = bad[0]
+                fails.append((n, key, '%s: sorted row %d (id=%d, t=%r, event=%d): __uncensored__=%d __cnumer__=%r __cdenom__=%r Weight=%r; %s'
+                              % (lab, j, o['id'][j], o['t'][j], o['d'][j], o['u'][j], o['cnum'][j], o['cden'][j], o['w'][j], txt), cs,
+                              lambda e='ipcw_val %s %s %d' % (s, pm, j): ' [expected cnumer, cdenom, Weight, documented Weight, (model, documented) indicator = %s]'
+                              % diag_eval(ctx, e)))
+                break
 
 
 # =============================================================================================== driver
 def run(ctx):
+    import time
     fails = []
     q = ctx.quick
-    iptw_part(ctx, fails, [gen_iptw_case(ctx) for _ in range(4 if q else 30)])
-    missing_part(ctx, fails, [gen_iptw_case(ctx, missing=True) for _ in range(3 if q else 20)])
-    stoch_part(ctx, fails, [gen_stoch_case(ctx) for _ in range(8 if q else 60)])
     kinds = ['range', 'range', 'range', 'shift', 'shuffle', 'float', 'str', 'dup']
-    ipmw_part(ctx, fails, [gen_ipmw_case(ctx, kinds[i % len(kinds)]) for i in range(48 if q else 400)])
-    ipcw_part(ctx, fails, [gen_ipcw_case(ctx) for _ in range(14 if q else 120)])
+    for name, fn in (
+            ('iptw', lambda: iptw_part(ctx, fails, [gen_iptw_case(ctx) for _ in range(6 if q else 40)])),
+            ('iptw-missing', lambda: missing_part(ctx, fails, [gen_iptw_case(ctx, missing=True) for _ in range(4 if q else 24)])),
+            ('stochastic', lambda: stoch_part(ctx, fails, [gen_stoch_case(ctx) for _ in range(10 if q else 80)])),
+            ('ipmw', lambda: ipmw_part(ctx, fails, [gen_ipmw_case(ctx, kinds[i % len(kinds)]) for i in range(64 if q else 600)])),
+            ('ipcw', lambda: ipcw_part(ctx, fails, [gen_ipcw_case(ctx) for _ in range(24 if q else 200)]))):
+        t0 = time.time()
+        fn()
+        ctx.extra.setdefault('part_seconds', {})[name] = round(time.time() - t0, 1)
     report(ctx, fails)
 
 
 def report(ctx, fails):
     fails.sort(key=lambda f: f[0])
     seen = set()
-    for size, key, what, payload in fails:
+    for f in fails:
+        size, key, what, payload = f[:4]
         if key in seen:
             continue
         seen.add(key)
-        n = sum(1 for f in fails if f[1] == key)
+        n = sum(1 for g in fails if g[1] == key)
+        if len(f) > 4 and not any(k.get('property') == ctx.pid and k.get('key') == key for k in ctx.known):
+            try:
+                what += f[4]()
+            except Exception:   # noqa
+                pass
         ctx.violation(key, what + ' [%d failing cases]' % n, payload)
 
 
